@@ -79,7 +79,8 @@ def run(ctx, chk):
     chk.ob(rule, "each format is applied with datetime.strptime(date_string, format); a mismatch moves to the next format", ok, "",
            key={"function": pf.key, "construct": "strptime + continue"}, file=pf.file, function=pf.qual, line=lp.lineno)
     rets = [n for n in ast.walk(lp) if isinstance(n, ast.Return)]
-    ok = any(isinstance(r.value, ast.Call) and "date_obj=date_obj" in ast.unparse(r.value) for r in rets)
+    import re as _re
+    ok = any(isinstance(r.value, ast.Call) and _re.search(r"date_obj=\w+", ast.unparse(r.value)) for r in rets)
     chk.ob(rule, "the first matching format returns its datetime", ok, "", key={"function": pf.key, "construct": "first match returns"},
            file=pf.file, function=pf.qual, line=lp.lineno)
     # completion guarded by the missing part
@@ -87,18 +88,25 @@ def run(ctx, chk):
     for n in ast.walk(lp):
         if isinstance(n, ast.Call) and ast.unparse(n.func) in ("set_correct_month_from_settings", "set_correct_day_from_settings"):
             part = "month" if "month" in ast.unparse(n.func) else "day"
-            facts = {ast.unparse(a) for t_, pol in enclosing_tests(pf.node, n) for a, p in conjuncts(t_, pol) if p}
+            from .c08 import missing_flags
+            fl = missing_flags(pf)
+            facts = {"missing_" + fl.get(ast.unparse(a), ast.unparse(a)) if ast.unparse(a) in fl else ast.unparse(a)
+                     for t_, pol in enclosing_tests(pf.node, n) for a, p in conjuncts(t_, pol) if p}
             chk.ob(rule, "the %s is completed only when the format lacks it" % part, ("missing_" + part) in facts,
                    "guards: %s" % sorted(facts), key={"function": pf.key, "construct": "completion guard " + part + " L-" + str(len(facts))},
                    file=pf.file, function=pf.qual, line=n.lineno)
         if isinstance(n, ast.Call) and isinstance(n.func, ast.Attribute) and n.func.attr == "replace" and any(k.arg == "year" for k in n.keywords):
             facts = {" ".join(ast.unparse(a).split()) for t_, pol in enclosing_tests(pf.node, n) for a, p in conjuncts(t_, pol) if p}
             neg = {" ".join(ast.unparse(a).split()) for t_, pol in enclosing_tests(pf.node, n) for a, p in conjuncts(t_, pol) if not p}
-            ok = "'year' in missing_parts" in facts or {"'%y' in date_format", "'%Y' in date_format"} <= neg
+            import re as _re
+            ok = any(_re.fullmatch(r"'year' in \w+", x) for x in facts) or \
+                (any(x.startswith("'%y' in ") for x in neg) and any(x.startswith("'%Y' in ") for x in neg))
             chk.ob(rule, "the current year is used only when the format has no year directive", ok, "guards %s / not %s" % (sorted(facts), sorted(neg)),
                    key={"function": pf.key, "construct": "year default guard"}, file=pf.file, function=pf.qual, line=n.lineno)
             ysrc = ast.unparse([k.value for k in n.keywords if k.arg == "year"][0])
-            chk.ob(rule, "the default year is the current year (today.year)", ysrc in ("today.year", "datetime.today().year"), "is %s" % ysrc,
+            tnames = {x.targets[0].id for x in iter_own_nodes(pf.node) if isinstance(x, ast.Assign) and isinstance(x.targets[0], ast.Name)
+                      and ast.unparse(x.value) in ("datetime.today()", "datetime.now()")}
+            chk.ob(rule, "the default year is the current year (today.year)", ysrc == "datetime.today().year" or any(ysrc == t_ + ".year" for t_ in tnames), "is %s" % ysrc,
                    key={"function": pf.key, "construct": "year default value"}, file=pf.file, function=pf.qual, line=n.lineno)
     for d, parts in sorted(DIRECTIVE_PARTS.items()):
         for part in parts:
@@ -133,6 +141,6 @@ def run(ctx, chk):
     # keep_formatting keeps separators: fallback keeps non-alphabetic skipped tokens, join without extra spaces
     tr = ix.func("dateparser.languages.locale:Locale.translate")
     t = " ".join(ast.unparse(tr.node).split())
-    ok = "separator='' if keep_formatting else ' '" in t and "dictionary.split(date_string, keep_formatting)" in t
+    ok = "separator='' if keep_formatting else ' '" in t and _re.search(r"\w+\.split\(date_string, keep_formatting\)", t) is not None
     chk.ob(rule, "translate(keep_formatting=True) splits with formatting and joins without inserting spaces", ok, "",
            key={"function": tr.key, "construct": "keep_formatting join"}, file=tr.file, function=tr.qual, line=tr.node.lineno)
